@@ -30,6 +30,21 @@ def name_atom(term, hdr_size, full_size):
     if term[0] != 't':
         return None
     op = term[1]
+    cc = common.cmp_const_right(term)
+    if cc is not None:
+        cop, x, c = cc
+        sx = fmt(x)
+        derived_x = any(y[0] == 't' and y[1] in ('Add', 'Sub', 'Mul', 'Div', 'Rem', 'BitAnd', 'BitOr', 'BitXor', 'Shl', 'Shr', 'wadd', 'wsub', 'Neg')
+                        for y in psi.walk(x))
+        ug = common.unsigned_ge(cop, c)
+        if ug is not None and not derived_x and 'read#' not in sx and 'open#' not in sx and 'mmap#' not in sx:
+            k, truth = ug
+            if '.version' in sx and 'load#' in sx and k == 1:
+                return ('version>0', truth)
+            if '.generation' in sx and 'load#' in sx and k == 1:
+                return ('generation>0', truth)
+            if 'segsize' in sx:
+                return ('segsize>=%d' % k, truth)
     if op in ('Lt', 'Le', 'Gt', 'Ge', 'Eq', 'Ne'):
         a, b = term[2]
         ca, cb = arith.const_num(arith.strip_casts(a)), arith.const_num(arith.strip_casts(b))
@@ -42,20 +57,6 @@ def name_atom(term, hdr_size, full_size):
             return ('read<0', False)
         if 'read#' in sa and 'mmap#' not in sa and op == 'Lt' and cb is not None:
             return ('read<header(%d)' % cb, False)
-        if '.version' in sa and 'load#' in sa and op == 'Gt' and cb == 0:
-            return ('version>0', True)
-        if '.version' in sa and 'load#' in sa and op in ('Eq',) and cb == 0:
-            return ('version==0', False)
-        if '.generation' in sa and 'load#' in sa and op == 'Gt' and cb == 0:
-            return ('generation>0', True)
-        if '.generation' in sa and 'load#' in sa and op == 'Eq' and cb == 0:
-            return ('generation==0', False)
-        derived = any(x[0] == 't' and x[1] in ('Add', 'Sub', 'Mul', 'Div', 'Rem', 'BitAnd', 'BitOr', 'BitXor', 'Shl', 'Shr', 'wadd', 'wsub', 'Not', 'Neg')
-                      for x in psi.walk(a))
-        if 'segsize' in sa and op == 'Ge' and cb is not None and not derived:
-            return ('segsize>=%d' % cb, True)
-        if 'segsize' in sa and op == 'Lt' and cb is not None and not derived:
-            return ('segsize<%d' % cb, False)
         return None
     if op == 'call' and term[2][0].endswith('::eq') and '.magic' in ft:
         return ('magic==SHM_MAGIC', True)
